@@ -41,6 +41,9 @@ type packetNumberSpace struct {
 
 	largestAcked protocol.PacketNumber
 	largestSent  protocol.PacketNumber
+	// firstPN is the first packet number used in this packet number space.
+	// Packet numbers below it were never sent (by this instance of the space).
+	firstPN protocol.PacketNumber
 }
 
 func newPacketNumberSpace(initialPN protocol.PacketNumber, isAppData bool) *packetNumberSpace {
@@ -55,6 +58,7 @@ func newPacketNumberSpace(initialPN protocol.PacketNumber, isAppData bool) *pack
 		pns:          pns,
 		largestSent:  protocol.InvalidPacketNumber,
 		largestAcked: protocol.InvalidPacketNumber,
+		firstPN:      initialPN,
 	}
 }
 
@@ -379,7 +383,7 @@ func (h *sentPacketHandler) ReceivedAck(ack *wire.AckFrame, encLevel protocol.En
 	pnSpace := h.getPacketNumberSpace(encLevel)
 
 	largestAcked := ack.LargestAcked()
-	if largestAcked > pnSpace.largestSent {
+	if largestAcked > pnSpace.largestSent || ack.LowestAcked() < pnSpace.firstPN {
 		return false, &qerr.TransportError{
 			ErrorCode:    qerr.ProtocolViolation,
 			ErrorMessage: "received ACK for an unsent packet",
